@@ -114,6 +114,14 @@ vh::Outcome run_locks(const vh::Case& c, Prop prop) {
         W& w = *wp;
         vrt::MutexCore* core = vrt::rt().mutexes.empty() ? nullptr : vrt::rt().mutexes[0];
         if (!core) vrt::fail("internal", "wrapper created no modelled mutex");
+        // a second wrapper of the same type for hand-over-hand handle moves (move-assignment onto a handle that owns a lock)
+        W* wp2;
+        if constexpr (optw) wp2 = new W(enabled, uint64_t(0)); else wp2 = new W(uint64_t(0));
+        std::unique_ptr<W> wown2(wp2);
+        W& w2 = *wp2;
+        vrt::MutexCore* core2 = vrt::rt().mutexes.size() > 1 ? vrt::rt().mutexes[1] : nullptr;
+        if (!core2) vrt::fail("internal", "second wrapper created no modelled mutex");
+        bool lifecycles = prop == P_C08 || prop == P_C01 || prop == P_C02;
         // learn the address of the protected object
         if constexpr (excl_handle) { auto h = w.lock(); st.P = &*h; } else { auto h = w.lock_shared(); st.P = &*h; }
         if (!enabled) const_cast<Tracked*>(st.P)->sh.hb_exempt = true;
@@ -186,7 +194,7 @@ vh::Outcome run_locks(const vh::Case& c, Prop prop) {
                                 }
                                 hold_wait(op.b);
                                 st.excl_alive--;
-                                int variant = prop == P_C08 ? op.a % 4 : 0;
+                                int variant = lifecycles ? op.a % 5 : 0;
                                 if (variant == 1) {
                                     h.unlock();
                                     if (h) vrt::fail("unlock-not-null", "handle is non-null after unlock()");
@@ -199,6 +207,21 @@ vh::Outcome run_locks(const vh::Case& c, Prop prop) {
                                     { auto dead(std::move(h)); (void)dead; }       // destroy a moved-from handle first
                                     if (enabled && !owns_excl()) vrt::fail("move-released", "destroying a moved-from handle released the lock");
                                     vrt::step();
+                                } else if (variant == 4 && enabled) {
+                                    // hand over hand: move-assign a handle on the second wrapper onto this handle, which owns the first lock
+                                    auto nxt = w2.lock();
+                                    if (!nxt || core2->owner != vrt::self()) vrt::fail("handle-truth", "lock() on the second wrapper did not acquire it");
+                                    h = std::move(nxt);
+                                    if (!h) vrt::fail("move-lost", "move-assigned handle is null");
+                                    if (core2->owner != vrt::self()) vrt::fail("move-released", "the moved lock was released by the move-assignment");
+                                    // the handle that was assigned over must not keep its lock behind a null handle
+                                    if (!nxt && core->owner == vrt::self()) vrt::fail("null-handle-holds-lock", "after move-assignment the source handle tests false but still holds the target's old lock");
+                                    if (bool(nxt) == false || true) { /* truthiness of a moved-from handle is not asserted */ }
+                                    vrt::step();
+                                    { auto dead(std::move(nxt)); (void)dead; }
+                                    if (core->owner == vrt::self()) vrt::fail("not-released", "the lock of a handle that was move-assigned over is still held after every handle that could own it is gone");
+                                    h.unlock();
+                                    if (core2->owner == vrt::self()) vrt::fail("unlock-not-released", "second wrapper still locked after unlock()");
                                 } else if (variant == 3) {
                                     h.unlock();
                                     vrt::step();
@@ -271,12 +294,25 @@ vh::Outcome run_locks(const vh::Case& c, Prop prop) {
                                 if (enabled) b2 = (*h).read();
                                 if (a != b2) vrt::fail("unstable-read", "value changed while a shared handle was held");
                                 st.shared_alive--;
-                                int variant = prop == P_C08 ? op.a % 3 : 0;
+                                int variant = lifecycles ? op.a % 4 : 0;
                                 if (variant == 1) {
                                     h.unlock();
                                     if (h) vrt::fail("unlock-not-null", "shared handle is non-null after unlock()");
                                     if (enabled && owns_shared()) vrt::fail("unlock-not-released", "lock still held after shared handle.unlock()");
                                     vrt::step();
+                                } else if (variant == 3 && enabled) {
+                                    auto owns2 = [&] { return share_capable ? core2->shared_by[vrt::self()] > 0 : core2->owner == vrt::self(); };
+                                    auto nxt = w2.lock_shared();
+                                    if (!nxt || !owns2()) vrt::fail("handle-truth", "lock_shared() on the second wrapper did not acquire it");
+                                    h = std::move(nxt);
+                                    if (!h) vrt::fail("move-lost", "move-assigned shared handle is null");
+                                    if (!owns2()) vrt::fail("move-released", "the moved shared lock was released by the move-assignment");
+                                    if (!nxt && owns_shared()) vrt::fail("null-handle-holds-lock", "after move-assignment the source shared handle tests false but still holds the target's old lock");
+                                    vrt::step();
+                                    { auto dead(std::move(nxt)); (void)dead; }
+                                    if (owns_shared()) vrt::fail("not-released", "the shared lock of a handle that was move-assigned over is still held after every handle that could own it is gone");
+                                    h.unlock();
+                                    if (owns2()) vrt::fail("unlock-not-released", "second wrapper still share-locked after unlock()");
                                 } else if (variant == 2) {
                                     auto h2(std::move(h));
                                     if (!h2) vrt::fail("move-lost", "moved-to shared handle is null");
@@ -302,6 +338,7 @@ vh::Outcome run_locks(const vh::Case& c, Prop prop) {
         // no leaked lock: the main fiber can take the lock in both modes
         if (enabled) {
             if (core->owner >= 0 || core->nshared > 0) vrt::fail("leaked-lock", "the mutex is still held after every client finished");
+            if (core2->owner >= 0 || core2->nshared > 0) vrt::fail("leaked-lock", "the second wrapper's mutex is still held after every client finished");
             if constexpr (excl_handle) { auto h = w.try_lock(); if (!h) vrt::fail("leaked-lock", "try_lock fails after every client finished"); }
             else { bool ran = false; w.modify([&](Tracked&) { ran = true; }); if (!ran) vrt::fail("leaked-lock", "modify did not run"); }
             if (st.P->peek() != st.model) vrt::fail("final-value", "final value differs from the last write");
